@@ -1,6 +1,9 @@
 import rx
 import rx.operators as ops
 import rxsci as rs
+from rxsci.internal.utils import NotSet
+
+NO_VALUE = NotSet()
 
 
 def assert_mux(predicate, name="", error=ValueError):
@@ -98,11 +101,11 @@ def assert_1(predicate, name="", error=ValueError):
     '''
     def _assert_1(source):
         def on_subscribe(observer, scheduler):
-            last = None
+            last = NO_VALUE
 
             def on_next(i):
                 nonlocal last
-                if last is not None:
+                if last is not NO_VALUE:
                     if predicate(last, i) is True:
                         observer.on_next(i)
                     else:
